@@ -16,7 +16,10 @@ EXTENDS Naturals, FiniteSets
 \* or any other descriptor that has a getter only) - neither a method nor a property
 MemberKinds == {"imethod", "smethod", "cmethod", "prop_ro", "prop_rw", "prop_wo", "classattr", "instattr",
                 "helper_plain", "helper_exposed", "helper_exposed_callable", "nested_exposed_class", "lazyattr"}
-Wheres == {"own", "inherited"}
+\* own / inherited: defined by the registered class itself / by its base class; over_exposed / over_plain: defined by the registered
+\* class, where the base class has an exposed method / an unexposed method of the same name (what the name denotes is what the most
+\* derived class says)
+Wheres == {"own", "inherited", "over_exposed", "over_plain"}
 \* member: @expose on the member; class_definer: @expose on the class that defines it; class_other: @expose only on another
 \* class of the hierarchy; forced: the exposure mark was put on by hand although the decorator refuses the name
 Marks == {"none", "member", "class_definer", "class_other", "forced"}
